@@ -528,6 +528,25 @@ def oracle_c05(spec, nota, ans):
             i = j
         else:
             i += 1
+    # ---- the host of the clitics under the nesting [modal] [être en train de] [… lexical verb]: the object, reflexive
+    # and adverbial clitics stand immediately before the verb that follows the modality / progressive auxiliaries
+    # (« Il peut être en train de la lui donner »), never before an auxiliary of the nesting
+    nlay = sum(1 for k, _ in layers if k in ("mod", "prog"))
+    if nlay and ok:
+        want = nlay + (1 if compound else 0)
+        i = 0
+        while i < len(toks):
+            if is_clitic(toks[i]):
+                j = i
+                while j < len(toks) and is_clitic(toks[j]):
+                    j += 1
+                if j < len(toks) and toks[j][0] == "V" and vidx.index(j) != want:
+                    h = vidx.index(j)
+                    kind = "compound-auxiliary" if compound and h == 0 else "verb-%d-of-%d" % (h, len(vidx))
+                    out.append(("clitic_host", "before-%s" % kind))
+                i = j
+            else:
+                i += 1
     # ---- inversion
     for i, t in enumerate(toks[:-1]):
         if t[3] == "":
@@ -911,14 +930,44 @@ def canonical(spec):
     return True
 
 
-def shrink(spec, fails, budget=400):
+def host_lateral(spec):
+    """lateral moves towards ONE canonical witness of a clitic-host failure: the progressive rather than a modality,
+    a pronominalized direct object rather than the reflexive pronoun or another clitic"""
+    out = []
+    typ = spec.get("typ") or {}
+    dirpro = {"k": "dir", "arg": {"k": "np", "id": 1, "noun": "chat", "g": "m", "n": "s", "pro": True}}
+    # the canonical witnesses themselves (« il l'a été en train de manger », « il peut être en train de le manger »):
+    # taken as soon as they fail the same way, whatever verb / clitic / subject the failing clause had
+    wit = []
+    for t in ("pc", spec["t"]):
+        for ty in ({"prog": True}, {"mod": "poss", "prog": True}):
+            if t == "ip":
+                continue
+            cand = {"subj": {"k": "pro", "var": "je", "pe": 3, "n": "s", "g": "m"}, "verb": verb_entry("manger"), "t": t,
+                    "comps": [dirpro], "typ": dict(ty)}
+            if cand not in wit:
+                wit.append(cand)
+    cur = {k: spec.get(k) for k in wit[0]}
+    if set(spec) - {"vpe", "vn"} <= set(wit[0]) and cur in wit:
+        wit = wit[:wit.index(cur)]          # never away from a more canonical witness
+    out.extend(wit)
+    if typ.get("mod") and not typ.get("prog"):
+        out.append(dict(spec, typ=dict({a: b for a, b in typ.items() if a != "mod"}, prog=True)))
+    if typ.get("refl") and not typ.get("pas"):
+        out.append(dict(spec, typ={a: b for a, b in typ.items() if a != "refl"}, comps=[dirpro]))
+    if len(spec["comps"]) == 1 and spec["comps"][0] != dirpro and not typ.get("pas"):
+        out.append(dict(spec, comps=[dirpro]))
+    return out
+
+
+def shrink(spec, fails, budget=400, lateral=None):
     """delta debugging on the specification: the first candidate that still fails is taken, until none does"""
     cur = spec
     n = 0
     progress = True
     while progress and n < budget:
         progress = False
-        for cand in shrink_candidates(cur):
+        for cand in shrink_candidates(cur) + (lateral(cur) if lateral else []):
             if not canonical(cand):
                 continue
             n += 1
@@ -950,7 +999,7 @@ def c05_signature(spec, clause, detail, nota):
     which the shrunk specification fails that way"""
     def fails(sp):
         return (clause, detail, nota) in c05_keys(sp, notas=(nota,))
-    small = shrink(spec, fails)
+    small = shrink(spec, fails, lateral=host_lateral if clause == "clitic_host" else None)
     notas = "+".join(sorted(n for (c, d, n) in c05_keys(small) if (c, d) == (clause, detail)))
     return "fr|%s|%s:%s|%s" % (notas, clause, detail, abstract(small)), small, notas
 
